@@ -7,3 +7,17 @@ for i in $(seq -w 1 20); do
   echo "C$i rc=$rc $(echo "$out" | grep -E "^C$i |ANALYSIS-ERROR" | tail -1 | cut -c1-200)"
   echo "$out" | grep -E "^VIOLATION|^KNOWN-FINDING" | cut -c1-160
 done
+# development guard: on the unchanged tree every hand-written corpus variant and every stored patch must still apply (a variant that
+# stops applying is skipped by the selftest - deliberately, a later change of /repo must not turn the check into an error - so stale
+# ones are reported here instead)
+/venv/bin/python - <<'PY'
+import sys, subprocess, glob
+sys.path.insert(0, '/verif')
+from sa import corpus, selftest
+src = selftest.load_sources()
+bad = [v['name'] for v in corpus.VARIANTS if selftest.apply_variant(src, v) is None]
+for p in sorted(glob.glob('/verif/seeded/*/patch.diff') + glob.glob('/verif/neutral/*/patch.diff')):
+    if subprocess.run(['git', '-C', '/repo', 'apply', '--check', p], capture_output=True).returncode != 0:
+        bad.append(p)
+print("stale variants:", bad if bad else "none")
+PY
